@@ -223,9 +223,14 @@ class Compiler:
             try:
                 return get_as_int(state, "link address", state["insn"], address, bitness=16, unsigned=False)
             except DeferredCycle:
+                try:
+                    formula = f" is mathematically equal to {address.resolve(state)!r},\nwhere LA denotes link base. In other words, the link base"
+                except (DeferredCycle, RecursionError):
+                    # The expression itself is defined in terms of itself and cannot even be printed
+                    formula = ""
                 reports.error(
                     "recursive-definition",
-                    (state["insn"].ctx_start, state["insn"].ctx_end, f"The link base is mathematically equal to {address.resolve(state)!r},\nwhere LA denotes link base. In other words, the link base depends on itself,\nand thus cannot be determined.")
+                    (state["insn"].ctx_start, state["insn"].ctx_end, f"The link base{formula} depends on itself,\nand thus cannot be determined.")
                 )
                 return 0
 
@@ -319,10 +324,13 @@ class Compiler:
             "set_where": None
         }
 
-        code = self.compile_file(file, link_base["promise"], link_base)
-
-        if not link_base["promise"].settled:
-            link_base["promise"].settle(addr)
+        try:
+            code = self.compile_file(file, link_base["promise"], link_base)
+        finally:
+            # Also when the compilation of the file is abandoned because of an error: symbols
+            # defined so far refer to this link base
+            if not link_base["promise"].settled:
+                link_base["promise"].settle(addr)
 
         return code
 
